@@ -228,6 +228,37 @@ class Walker:
                         seen.add(d)
                         todo.append(cb['body'])
 
+    _MUT_NAMES = ('insert', 'remove', 'clear', 'retain', 'extend', 'drain', 'remove_entry', 'entry')
+
+    def _loop_mutates(self, qnode):
+        """hid of the innermost enclosing loop whose body directly mutates the container this query node reads (same receiver
+           expression), else None"""
+        try:
+            qtxt = ir.pp(ir.strip(qnode['args'][0]))
+        except Exception:
+            return None
+        for (kind, hid, iv, lnode) in reversed(self.loops):
+            if lnode is None:
+                continue
+            cache = self.__dict__.setdefault('_loopmut', {})
+            key = (id(lnode), qtxt)
+            if key not in cache:
+                hit = False
+                for m in ir.walk(lnode):
+                    if m.get('k') in ('Call', 'MethodCall') and m is not qnode and m.get('args'):
+                        c = (ir.callee(m) or '').split('::')[-1]
+                        if c in self._MUT_NAMES:
+                            try:
+                                if ir.pp(ir.strip(m['args'][0])) == qtxt:
+                                    hit = True
+                                    break
+                            except Exception:
+                                pass
+                cache[key] = hit
+            if cache[key]:
+                return hid
+        return None
+
     def call_local(self, fn_path, args, pc, top=False, closure_env=None):
         prog = self.prog
         shell = prog.bodies.get(fn_path)
@@ -920,6 +951,12 @@ class Walker:
         if name in ('contains_key', 'contains') and len(args) == 2 and _is_coll_type(recv_ty):
             if _is_map_type(recv_ty) or _is_set_type(recv_ty):
                 self.emit('query', n, pc, coll=recv, key=args[1], name=name, recv_ty=recv_ty)
+            # loop-carried state: a membership test inside a loop that itself inserts into / removes from the same container
+            # sees the effects of earlier iterations; it is NOT the fact established before the loop (same canonical term), so it
+            # gets a version tag of that loop.  (Facts taken before the loop and carried in as element facts stay unversioned.)
+            ver = self._loop_mutates(n)
+            if ver is not None:
+                return mk_bool(Atom(('is', ('get', ('ver', recv, ver), args[1]), 'Some')))
             return mk_bool(Atom(('is', ('get', recv, args[1]), 'Some')))
         if name in ('get', 'get_mut') and len(args) == 2 and (_is_map_type(recv_ty) or _is_set_type(recv_ty)):
             self.emit('query', n, pc, coll=recv, key=args[1], name=name, recv_ty=recv_ty)
